@@ -189,12 +189,29 @@ def build_query(sc, order=True, distinct=True, bound=True):
         q += ' group by ' + sc['group_by']
     o = sc.get('order') if order else None
     if o:
-        q += ' order by ' + ', '.join(sc['items'][c] for c in o['cols'])
+        q += ' order by ' + ', '.join(order_key_texts(sc))
         if o['dir']:
             q += ' ' + o['dir']
     if b and b['form'] == 'limit':
         q += ' limit %d' % b['n']
     return q
+
+
+def order_key_texts(sc):
+    o = sc['order']
+    if o.get('exprs'):
+        return list(o['exprs'])
+    return [sc['items'][c] for c in o['cols']]
+
+
+def build_raw_query(sc):
+    """The query without ORDER BY / DISTINCT / bound; hidden ORDER BY expressions are appended as extra columns."""
+    o = sc.get('order')
+    if not o or not o.get('exprs'):
+        return build_query(sc, order=False, distinct=False, bound=False)
+    c = dict(sc)
+    c['items'] = list(sc['items']) + list(o['exprs'])
+    return build_query(c, order=False, distinct=False, bound=False)
 
 
 def is_buffering(sc):
@@ -205,9 +222,16 @@ def model(sc, raw_rows):
     rows = [list(r) for r in raw_rows]
     o = sc.get('order')
     if o:
-        rows = sorted(rows, key=lambda r: tuple(r[c] for c in o['cols']))
-        if o['dir'] and o['dir'].lower() == 'desc':
-            rows.reverse()
+        if o.get('exprs'):
+            nk = len(o['exprs'])
+            rows = sorted(rows, key=lambda r: tuple(r[len(r) - nk:]))
+            if o['dir'] and o['dir'].lower() == 'desc':
+                rows.reverse()
+            rows = [r[:len(r) - nk] for r in rows]
+        else:
+            rows = sorted(rows, key=lambda r: tuple(r[c] for c in o['cols']))
+            if o['dir'] and o['dir'].lower() == 'desc':
+                rows.reverse()
     d = sc.get('distinct')
     if d == 'd':
         seen = set()
@@ -261,6 +285,13 @@ def generate(rng, tier, idx):
             if c2 != cols[0]:
                 cols.append(c2)
         sc['order'] = {'cols': cols, 'dir': rng.choice([None, 'asc', 'desc', 'DESC', 'desc'])}
+        if rng.random() < 0.4:
+            # keys that are not (all) in the select list; ints and strings are never mixed within one key position
+            pool = ['a1', 'a2', 'a3', 'NR', 'a2 + a1', 'a1.length' if False else 'NR % 2', 'NR % 3']
+            exprs = [rng.choice(pool)]
+            if rng.random() < 0.4:
+                exprs.append(rng.choice(pool))
+            sc['order']['exprs'] = exprs
     sc['bound'] = None
     if rng.random() < 0.75:
         sc['bound'] = {'form': rng.choice(['top', 'limit']), 'n': rng.choice([0, 1, 1, 2, 2, 3, 4, 6, 9, 12])}
@@ -349,7 +380,7 @@ def check_engine(sc, eng, counters, res, digest_parts):
             raw = {'rows': full['rows'], 'pulls': full['pulls']}
             expected = full['rows']
         else:
-            raw = do(build_query(sc, order=False, distinct=False, bound=False), producer)
+            raw = do(build_raw_query(sc), producer)
             if raw['outcome'] != ['ok']:
                 bump(counters, 'discard.raw_query_fails')
                 return 'discard'
@@ -363,7 +394,7 @@ def check_engine(sc, eng, counters, res, digest_parts):
             if full['outcome'] != ['ok'] or full['rows'] != expected:
                 return ('order_model', {'got': full['rows'], 'outcome': full['outcome'], 'expected': expected, 'raw': raw['rows']})
         if sc.get('order') or sc.get('distinct'):
-            if len(expected) < len(raw['rows']) or (sc.get('order') and len(set(core.canon([r[c] for c in sc['order']['cols']]) for r in raw['rows'])) < len(raw['rows'])):
+            if len(expected) < len(raw['rows']) or (sc.get('order') and len(set(core.canon(sort_key_of(sc, r)) for r in raw['rows'])) < len(raw['rows'])):
                 nontrivial = True
                 bump(counters, 'probe.duplicate_keys_or_records')
         if sc.get('order') and (sc.get('unnest_at') is not None or sc.get('join')) and len(raw['rows']) > raw['pulls'] - 1:
@@ -424,6 +455,13 @@ def check_engine(sc, eng, counters, res, digest_parts):
     if producer.get('sparse_after') is not None:
         bump(counters, 'probe.sparse_tail_not_pulled')
     return 'nontrivial'
+
+
+def sort_key_of(sc, r):
+    o = sc['order']
+    if o.get('exprs'):
+        return r[len(r) - len(o['exprs']):]
+    return [r[c] for c in o['cols']]
 
 
 def pstar_of(ref, n):
@@ -490,6 +528,15 @@ def shrinks(sc):
         c = dict(sc)
         c['order'] = None
         yield c
+        if sc['order'].get('exprs'):
+            c = dict(sc)
+            c['order'] = {k: v for k, v in sc['order'].items() if k != 'exprs'}
+            yield c
+            if len(sc['order']['exprs']) > 1:
+                c = dict(sc)
+                c['order'] = dict(sc['order'])
+                c['order']['exprs'] = sc['order']['exprs'][:1]
+                yield c
         if len(sc['order']['cols']) > 1:
             c = dict(sc)
             c['order'] = dict(sc['order'])
